@@ -313,6 +313,15 @@ def cfg_yaml(cfg) -> str:
 MSG = re.compile(r"Magic number (.+?) should be a named constant")
 
 
+NUM_TOKEN = re.compile(r"(?<![\w.])(?:\d+\.\d+(?:[eE][+-]?\d+)?|\d+[eE][+-]?\d+|\d+|True|False)(?![\w])")
+
+
+def named_number(message: str) -> str:
+    """the value a differently worded message names: its first numeric token"""
+    m = NUM_TOKEN.search(message)
+    return m.group(0) if m else message
+
+
 def impl_case(args) -> dict:
     idx, lang, text, cfgs, fname, root = args
     proj = Path(root) / f"g{idx}"
@@ -332,7 +341,7 @@ def impl_case(args) -> dict:
             rep = []
             for v in vs:
                 m = MSG.search(v["message"])
-                rep.append([v["line"], m.group(1) if m else v["message"], v["rule_id"]])
+                rep.append([v["line"], m.group(1) if m else named_number(v["message"]), v["rule_id"]])
             out["runs"].append({"exit": code, "reports": sorted(rep)})
     except Exception as exc:  # noqa: BLE001
         out["errors"].append(f"{type(exc).__name__}: {exc}")
